@@ -109,8 +109,10 @@ Check C17_verdict_decomposes : forall p s d, xv_exec_valid p s d = true <-> xv_a
 Print Assumptions C17_verdict_decomposes.
 
 (* NOT PROVED (the long equivalence; the literal model and the specification's rule are instead compared on
-   every generated case inside modelrun, counted in the evidence as literal_merging_vs_spec):
+   every generated case that from_ast.rs builds without loss, inside modelrun, counted in the evidence as
+   literal_merging_vs_spec):
      C17_xing_equiv : forall s d, xv_r_no_fragment_cycles d = true -> xv_r_argument_unique s d = true ->
+       xv_r_fields_defined s d = true -> xv_r_leaf_selections s d = true -> fragment type conditions composite ->
        xv_r_input_field_unique s d = true -> within the depth limit ->
        mx_document_ok s d = Some (xv_r_fields_merge s d).
    The proved parts of it are C17_xing_groups, C17_first_vs_rest and C17_same_value_equiv. *)
